@@ -8,7 +8,7 @@ from fvsym.props.c01 import history  # noqa  (harness shared with C01, mirror as
 BOUNDS = {
     "quick": "C01's inductive steps and 2-step histories on tensor-owned skeletons 2, [1,1], [2,1], [1,0], [] with mirror() asserted after "
              "every step; constructors (empty+insertions, fromFiber / setRoot of a free or an owned root, fromUncompressed 2x2, makePopulated, deepcopy), Tensor.clearStats reach and every transform on [2,1]/[1,1]/[1,0] "
-             "(swizzle on a 2x2 box with symbolic values); read-only co-iterating traversals (|, ==, uncompress, Format.getRank)",
+             "(swizzle on a 2x2 box with symbolic values); read-only co-iterating traversals (|, ==, uncompress, Format.getRank); makePopulated, Tensor.clearStats reach, fromFiber / setRoot of a root that already belongs to a tensor (concrete box coordinates, symbolic values), clearing a non-root fiber whose sub-fibers have equal-content siblings",
     "thorough": "adds 3-fibers, [2,2], [0,1], depth-3 skeleton [[1,1]] for transforms, 2x2x2 swizzles, split step/halo variants",
 }
 OUTSIDE = "real pickle consistency of deepcopy (S1; replays use pickle); YAML text parsing; fromRandom (C13 covers it through S3)"
